@@ -403,6 +403,9 @@ func c07Exec(ops []string, prop string) vResult {
 					s.st.SetWriteDeadline(time.Time{})
 					qf0 := atomic.LoadUint64(&e.s.stats.queueFullErrorCount)
 					done := make(chan error, 1)
+					// the retry waits until the drain below is complete (else which of the two comes first is a matter of load)
+					gate := make(chan struct{})
+					vSetRetryGate(gate)
 					go func() { done <- s.st.Flush(false) }()
 					full := false
 					for t0 := time.Now(); time.Since(t0) < 2*time.Second; {
@@ -424,9 +427,12 @@ func c07Exec(ops []string, prop string) vResult {
 							exec1("deliver "+peerName(x), []string{"deliver", peerName(x)})
 						}
 					}
+					close(gate)
 					select {
 					case err = <-done:
+						vSetRetryGate(nil)
 					case <-time.After(5 * time.Second):
+						vSetRetryGate(nil)
 						c.setFail("flush-hangs", "Flush did not return within 5 s of the peer draining the full queue")
 						return "hang"
 					}
